@@ -320,9 +320,10 @@ def run_e2e(c, prot, rows, workdir):
         out = wd / "out"
         out.mkdir()
         try:
-            # every third end-to-end case streams the table in small confidence chunks (2-4 rows): the protein level is won per
+            # every second end-to-end case streams the table in small confidence chunks (1-3 rows): the protein level is won per
             # target / decoy pair over the WHOLE peptide table, wherever chunk borders fall
-            with mk.patched(CONFIDENCE_CHUNK_SIZE=(2 + c["idx"] % 3) if c["idx"] % 3 == 2 else 10 ** 6):
+            # (end-to-end cases have idx = 9j + 1 in the quick tier: select on idx div 9)
+            with mk.patched(CONFIDENCE_CHUNK_SIZE=(1 + (c["idx"] // 18) % 3) if (c["idx"] // 9) % 2 == 1 else 10 ** 6):
                 mokapot.assign_confidence(psms=[ds], scores=[np.array([r["s4"] / 4.0 for r in rows], dtype=float)],
                                           dest_dir=out, prefixes=[None], decoys=True, deduplication=True, do_rollup=True,
                                           proteins=prot, max_workers=1, peps_algorithm="stub", rng=c["seed"] % 1000)
